@@ -739,6 +739,10 @@ func (w *world) genericProbes() {
 func (w *world) defPackage() {
 	n := len(w.pkgs) + 1
 	name := fmt.Sprintf("zp%s%d", w.letter(), n)
+	if w.pick("pkgfirst", 2) == 0 {
+		// a name that sorts before common-lisp-user (snapshot writes the packages in name order)
+		name = "a" + name
+	}
 	src := "(defpackage \"" + name + "\""
 	uses := []string{"\"cl\""}
 	if len(w.pkgs) > 0 && w.pick("pkguse", 3) > 0 {
